@@ -29,7 +29,8 @@ func init() {
 //         a = use_auth, p = profiling endpoints, m = metrics, an optional 4th character 'f' = the token store
 //         fails (SELECT on the tokens table returns a storage error) during the request; optional "~U" / "~X" / "~R" =
 //         the request is made while an authenticate (GET /api/v1/access) of that token is held inside the token
-//         repository (its lookup has returned); optional "@<value>" = the configured admin token (no space);
+//         repository (its lookup has returned), "~sU" / "~sX" / "~sR" = while every SQL statement is made to wait (the
+//         connection pool is held) and an authenticate of that token is already waiting; optional "@<value>" = the configured admin token (no space);
 //         the route pattern is the one of engine.Routes() (parameters are instantiated by the harness).
 // obs   : "pass"                                   the request was not answered 401
 //         "401 <code> unchanged|CHANGED(<tables>)"  structured 401 (code of the JSON body) and whether the
@@ -81,7 +82,7 @@ func c09Configs() []c09Cfg {
 		if !m {
 			// overlapping authentications: the request is made while the lookup of another token is held inside
 			// the token repository (the verdict must depend on the request's own token only)
-			for _, o := range []string{"U", "X", "R"} {
+			for _, o := range []string{"U", "X", "R", "sU", "sX", "sR"} {
 				out = append(out, c09Cfg{auth: true, over: o})
 			}
 			// the admin token is configuration: shorter / as long as / longer than issued tokens, other characters
@@ -195,6 +196,7 @@ type c09Env struct {
 	A, U, R, X string
 	D          string // a sacrificial issued token: the target of DELETE /access/:token requests
 	nhook      int
+	setup      []string // fixture steps of the current configuration that failed
 	dTokens    string
 }
 
@@ -249,46 +251,60 @@ func (e *c09Env) open(k c09Cfg, dir string) error {
 	e.k, e.fs, e.routes = k, fs, rs
 	e.A = fs.Cfg.HTTP.AuthToken
 	e.X = c10Unknown("X")
+	// Fixture steps.  A step that fails because the implementation misbehaves is recorded in e.setup (it becomes
+	// the observable of the "SETUP" case of this configuration) and the run goes on as far as possible; only a
+	// failure of the harness's own infrastructure (NewStack above) aborts.
+	e.setup = nil
+	fail := func(format string, a ...interface{}) { e.setup = append(e.setup, fmt.Sprintf(format, a...)) }
 	// the fixture tokens are made through the service layer (not through the API under test)
-	mk := func() (string, error) {
+	mk := func(what string) string {
 		t, err := fs.Services.Tokens.GenerateToken()
 		if err != nil || t == nil || !isAlnum32(t.Token) {
-			return "", fmt.Errorf("setup: GenerateToken: %v", err)
+			fail("GenerateToken(%s):%v", what, err)
+			return c10Unknown("nogen" + what)
 		}
-		return t.Token, nil
+		return t.Token
 	}
-	if e.U, err = mk(); err != nil {
-		return err
-	}
-	if e.R, err = mk(); err != nil {
-		return err
-	}
+	e.U = mk("U")
+	e.R = mk("R")
 	// the revoked credential is a token that was issued, USED successfully (on two API routes and on the
 	// token check the websocket connect handler performs) and only then revoked
-	used := 0
-	for _, path := range []string{"/api/v1/access", "/api/v1/chain/tip/longest"} {
-		if code, _ := fs.Do("GET", path, "", map[string]string{"Authorization": "Bearer " + e.R}); code == 200 {
-			used++
+	if k.auth {
+		for _, path := range []string{"/api/v1/access", "/api/v1/chain/tip/longest"} {
+			if code, _ := fs.Do("GET", path, "", map[string]string{"Authorization": "Bearer " + e.R}); code != 200 {
+				fail("issued-token-on-GET-%s-before-revocation:%d", path, code)
+			}
+		}
+		if _, err := fs.Services.Tokens.GetToken(e.R); err != nil {
+			fail("issued-token-on-websocket-check-before-revocation:refused")
 		}
 	}
-	if _, err := fs.Services.Tokens.GetToken(e.R); err == nil {
-		used++
-	}
-	if k.auth && used != 3 {
-		return fmt.Errorf("setup: the token to be revoked did not authenticate before its revocation (%d of 3 uses)", used)
-	}
 	if code, _ := fs.Do("DELETE", "/api/v1/access/"+e.R, "", map[string]string{"Authorization": "Bearer " + e.A}); code != 200 {
+		fail("revocation-by-admin:%d", code)
 		// the API under test refused: revoke through the service layer so that the run can go on and show it
 		_ = fs.Services.Tokens.DeleteToken(e.R)
 	}
 	if _, err := fs.Repo.Tokens.GetTokenByValue(e.R); err == nil {
-		return fmt.Errorf("setup: revoked token still in the tokens table")
+		fail("revoked-token-still-in-tokens-table")
+		_, _ = fs.DB.Exec(`DELETE FROM tokens WHERE token = ?`, e.R)
 	}
 	e.D, e.dTokens = "", ""
 	if e.U == e.R || e.U == e.A || e.R == e.A {
-		return fmt.Errorf("setup: generated tokens not distinct")
+		fail("generated-tokens-not-distinct")
+	}
+	if len(k.over) == 2 {
+		fs.DB.SetMaxOpenConns(2) // the slow-SQL overlap holds the whole pool
+		fs.DB.SetMaxIdleConns(2)
 	}
 	return nil
+}
+
+// setupObs is the observable of the "cfg=<k> SETUP - H-" case.
+func (e *c09Env) setupObs() string {
+	if len(e.setup) == 0 {
+		return "SETUP-OK"
+	}
+	return "SETUP-FAILED " + strings.ReplaceAll(strings.Join(e.setup, ";"), " ", "_")
 }
 
 func (e *c09Env) digests() [3]string {
@@ -301,6 +317,9 @@ func (e *c09Env) digests() [3]string {
 func (e *c09Env) request(method, pattern, hdr, query string) (obs string) {
 	if e.k.over == "" {
 		return e.requestPlain(method, pattern, hdr, query)
+	}
+	if len(e.k.over) == 2 {
+		return e.requestSlow(method, pattern, hdr, query)
 	}
 	held := e.subst("$" + e.k.over)
 	reached, release := c09Pause.arm(held)
@@ -355,7 +374,61 @@ func (e *c09Env) request(method, pattern, hdr, query string) (obs string) {
 	return fgRes + " bg=" + bgRes
 }
 
+// bgAccess: GET /api/v1/access with "Bearer tok" -> "pass" / "401:<code>"
+func (e *c09Env) bgAccess(tok string) (res string) {
+	defer func() {
+		if r := recover(); r != nil {
+			res = "PANIC"
+		}
+	}()
+	code, out := e.fs.Do("GET", "/api/v1/access", "", map[string]string{"Authorization": "Bearer " + tok})
+	if code != 401 {
+		return "pass"
+	}
+	var er struct {
+		Code string `json:"code"`
+	}
+	_ = json.Unmarshal([]byte(out), &er)
+	return "401:" + er.Code
+}
+
+// requestSlow ("~sU" / "~sX" / "~sR"): the overlap is produced BELOW the repository layer - the whole connection
+// pool is held, so that every SQL statement waits; an authenticate of the named token is started and, once its
+// statement waits, the request of the case; then the pool is released.
+func (e *c09Env) requestSlow(method, pattern, hdr, query string) string {
+	other := e.subst("$" + e.k.over[1:])
+	ready, goOn := make(chan struct{}), make(chan struct{})
+	fg := make(chan string, 1)
+	go func() {
+		fg <- e.requestHooked(method, pattern, hdr, query, func() { close(ready); <-goOn })
+	}()
+	select {
+	case <-ready: // prepared, tables digested: nothing of the harness needs the database until the pool is free again
+	case r := <-fg:
+		return r + " bg=NOT-RUN"
+	}
+	release, waiters, err := holdPool(e.fs.Stack, 2)
+	if err != nil {
+		close(goOn)
+		return <-fg + " bg=HARNESS-ERROR"
+	}
+	bg := make(chan string, 1)
+	go func() { bg <- e.bgAccess(other) }()
+	waitFor(2*time.Second, func() bool { return waiters() >= 1 })
+	close(goOn)
+	// the request's own lookup waits too (not when it is refused before any lookup, or merged into another one)
+	waitFor(40*time.Millisecond, func() bool { return waiters() >= 2 })
+	release()
+	return <-fg + " bg=" + <-bg
+}
+
 func (e *c09Env) requestPlain(method, pattern, hdr, query string) (obs string) {
+	return e.requestHooked(method, pattern, hdr, query, nil)
+}
+
+// requestHooked: pre (when not nil) runs after the request was prepared and the tables were digested, right before
+// the request is sent.
+func (e *c09Env) requestHooked(method, pattern, hdr, query string, pre func()) (obs string) {
 	defer func() {
 		if r := recover(); r != nil {
 			obs = fmt.Sprintf("PANIC %v", r)
@@ -376,6 +449,9 @@ func (e *c09Env) requestPlain(method, pattern, hdr, query string) (obs string) {
 		if _, err := e.fs.DB.Exec(`ALTER TABLE tokens RENAME TO tokens_unavailable`); err != nil {
 			return "HARNESS-ERROR " + err.Error()
 		}
+	}
+	if pre != nil {
+		pre()
 	}
 	if strings.HasPrefix(hdr, "=") && hdr == "=" {
 		// an Authorization header that is present but empty
@@ -437,7 +513,7 @@ func c09ParseInput(in string) (k c09Cfg, r c09Route, hdr string, err error) {
 	if strings.HasPrefix(cf, "f") {
 		k.fail, cf = true, cf[1:]
 	}
-	if strings.HasPrefix(cf, "~") && len(cf) == 2 {
+	if strings.HasPrefix(cf, "~") && (len(cf) == 2 || (len(cf) == 3 && cf[1] == 's')) {
 		k.over, cf = cf[1:], ""
 	}
 	if cf != "" {
@@ -460,6 +536,10 @@ func runC09(c *Ctx) error {
 			return err
 		}
 		defer e.fs.Shutdown()
+		if r.Method == "SETUP" {
+			c.Case(c.Only, e.setupObs())
+			return nil
+		}
 		q := ""
 		if c09Slow(r) {
 			q = "?seconds=1"
@@ -488,6 +568,8 @@ func runC09(c *Ctx) error {
 		if err := e.open(k, filepath.Join(base, fmt.Sprint(i))); err != nil {
 			return err
 		}
+		c.Case(fmt.Sprintf("cfg=%s SETUP - H-", k), e.setupObs())
+		c.Count("fixture:setup-case")
 		one := func(r c09Route, hdr, class, q string) {
 			in := c09Input(k, r, hdr)
 			if seen[in] {
